@@ -12,7 +12,16 @@
 (***************************************************************************)
 EXTENDS Integers, Sequences, FiniteSets, TLC
 
-CONSTANTS Clients, Defs, MaxOps, Dev
+\* (the @type comments are for Apalache, which proves the invariants inductive for histories of any length: ReloadApa.tla)
+CONSTANTS
+  \* @type: Set(Str);
+  Clients,
+  \* @type: Set(Str);
+  Defs,
+  \* @type: Int;
+  MaxOps,
+  \* @type: Set(Str);
+  Dev
 \* Dev: "invalid_file_applied"    - a file that fails validation still replaces CONFIG / POOLS
 \*      "unchanged_pool_recreated" - every reload builds new pool objects even for unchanged definitions
 \*      "tx_follows_reload"        - a transaction in progress is moved to the new pool object
@@ -26,14 +35,41 @@ CONSTANTS Clients, Defs, MaxOps, Dev
 Files == Defs \cup {"absent", "syntax_error", "semantic_error", "unreachable"}
 Valid(f) == f \in Defs \cup {"absent", "unreachable"}
 
-VARIABLES file, config, pools, nextObj, reloadPc, staged,
-          tx,       \* client -> -1 (no transaction) or the object id its transaction runs on (-2 = the control pool)
-          txdef,    \* client -> definition that object had
-          cobj,     \* client -> pool object resolved at connect time (only used by a deviation)
-          nops, viol,
-          applied,  \* the last VALID file contents a reload was asked to load (what must be in effect)
-          paused,   \* PAUSE is in force for db1
-          parked    \* client -> -1 (not held) or the pool object it saw when PAUSE held its new transaction
+VARIABLES
+  \* @type: Str;
+  file,
+  \* @type: Str;
+  config,
+  \* @type: { def: Str, obj: Int };
+  pools,
+  \* @type: Int;
+  nextObj,
+  \* @type: Str;
+  reloadPc,
+  \* @type: Str;
+  staged,
+  \* client -> -1 (no transaction) or the object id its transaction runs on (-2 = the control pool)
+  \* @type: Str -> Int;
+  tx,
+  \* client -> definition that object had
+  \* @type: Str -> Str;
+  txdef,
+  \* client -> pool object resolved at connect time (only used by a deviation)
+  \* @type: Str -> Int;
+  cobj,
+  \* @type: Int;
+  nops,
+  \* @type: Set(Str);
+  viol,
+  \* the last VALID file contents a reload was asked to load (what must be in effect)
+  \* @type: Str;
+  applied,
+  \* PAUSE is in force for db1
+  \* @type: Bool;
+  paused,
+  \* client -> -1 (not held) or the pool object it saw when PAUSE held its new transaction
+  \* @type: Str -> Int;
+  parked
 
 vars == <<file, config, pools, nextObj, reloadPc, staged, tx, txdef, cobj, nops, viol, applied, paused, parked>>
 
